@@ -22,15 +22,16 @@ git apply -R $dst/patch.diff
 d2=$(go test -vet=off -count=1 -run TestSeedDemo ./$pkgdir 2>&1 | tail -1); echo "demo without change: $d2"
 rm -f $pkgdir/zz_seed_demo_test.go
 git apply $dst/patch.diff
-res=""
+res=""; obs=""
 for c in $checks; do
   out=$(GOVC_REPO=/tmp/mut /verif/bin/govc check $c 2>&1)
   echo "$out" | grep -E "VIOLATION|BROKEN" | cut -c1-260
   echo "$out" | tail -1
   res="$res $c:$(echo "$out" | grep -c VIOLATION)"
+  obs="$obs $(echo "$out" | grep VIOLATION | sed -E 's/.*obligation=([^ ]*).*/\1/' | head -6 | tr '\n' ' ')"
 done
 git checkout -q -- . 
 echo "RESULT $id${SUFFIX:-}:$res"
 cat > $dst/meta.json <<EOM
-{"property": "$id", "demo": "$(basename $demo)", "demo_package": "$pkgdir", "confirmed": {"build": "${b:-ok}", "suite_with_change": "${s:-all ok}", "demo_with_change": "$(echo $d1 | tr -d '"')", "demo_without_change": "$(echo $d2 | tr -d '"')"}, "checks_run": "$checks", "violations_reported": "$res"}
+{"property": "$id", "demo": "$(basename $demo)", "demo_package": "$pkgdir", "confirmed": {"build": "${b:-ok}", "suite_with_change": "${s:-all ok}", "demo_with_change": "$(echo $d1 | tr -d '"')", "demo_without_change": "$(echo $d2 | tr -d '"')"}, "checks_run": "$checks", "violations_reported": "$res", "reported_by": "$(echo $obs | tr -d '"')"}
 EOM
